@@ -20,6 +20,10 @@ CHECKS = {
    technique="bounded-exhaustive enumeration of the documented DATE grammar (full field product plus near misses, all pairs as ranges) against an independent reference parser",
    text="The product of 15 keyword spellings x letter case x 14 day classes x 23 month spellings (+ near misses) x 14 year classes x 6 spacings x trailing junk, and every ordered pair of 160 representative sentences under 8 between-words x 5 and-words, are parsed by the real code and by a table-driven reference parser; day/month/year/constraint of both ends, validity, canonical printing and print/parse fixpoint must agree.",
    note="Trusts ref/date.go. Forms the documentation leaves open (extra leading zeros, year 0, 5-digit years) are judged for no-crash/stability only. Numeric fields are classes, except thorough which adds every calendar day."),
+ "C06": dict(engine="E3", category="exploration", design_ref="§4 C06",
+   technique="bounded-exhaustive enumeration of all ordered pairs of day ranges inside calendar windows against the documented interval relation and its algebraic laws",
+   text="Every [a,b] x [c,d] (a<=b, c<=d) inside day windows across a year change, leap/non-leap February and both ends of the supported range, plus every pairing of day/month/year granularities (structs and parsed strings), is compared; result must be an admissible drawn relation, never Invalid, Equal on self-comparison, converse under operand swap, and exactly one simplified verdict.",
+   note="Orientation taken from TestDateRange_Compare. Where two drawn relations hold (single-day argument touching an end) either is accepted; the converse law decides. No random ranges (sampling is a different family)."),
  "C05": dict(engine="E3", category="exploration", design_ref="§4 C05",
    technique="bounded-exhaustive enumeration of every calendar date against an own calendar reference model",
    text="Every day, month-year and year (quick: three 400-year blocks; thorough: all of 1..9999) is run through the real Date.Time/Years/IsBefore/IsAfter/Duration/Minimum/Maximum and compared with own proleptic-Gregorian arithmetic; exhaustive as the property's quantifier states.",
